@@ -13,7 +13,7 @@ from tools.vlib import Outcome, sx
 from tools.props import c08_common as C
 
 MANIFEST = {
-    "level_text": "Coq theorems (Properties/C08.v, no axioms) about an executable model of the run/cache state machine shared by run_generate and BuildSystem::generate_bindings, instantiated with the fingerprint = exactly the fields hash_commands/hash_structs/hash_config serialise and with per-file views of the data the generators read: for every history of edits, file deletions, cache deletions and (un)forced runs under every discovery order, a non-forced run that reports success or up-to-date leaves every file of a forced generation in place, unless the final state lies in one of nine recorded classes (eight unhashed components, loss of a vouched file), each refuted on the faithful model by a computed three-step history; completeness of the class list (equal fingerprint and equal unhashed components give equal files); the repaired design (sound fingerprint + presence test) is sound for all histories. Tied to /repo on every run by replaying all edit/deletion histories of length <=2 (quick) / <=3 (thorough) through the real CLI binary and through BuildSystem::generate_at_build_time in fresh processes and comparing every step with the extracted model, and by the hash-partition test on .typecache.",
+    "level_text": "Coq theorems (Properties/C08.v, no axioms) about an executable model of the run/cache state machine shared by run_generate and BuildSystem::generate_bindings, instantiated with the fingerprint = exactly the fields hash_commands/hash_structs/hash_config serialise and with per-file views of the data the generators read: for every history of edits, file deletions, cache deletions and (un)forced runs under every discovery order, a non-forced run that reports success or up-to-date leaves every file of a forced generation in place, unless the final state lies in one of three recorded classes (events differ, command line numbers differ under visualize_deps, loss of a vouched file), each refuted on the faithful model by a computed history; the former classes (serde rename/rename_all, validator attributes, command rename_all, parameter rename, visualize_deps) are hashed since the repair C08-C14-hash-inputs and their old witnesses are proved detected; completeness of the class list (equal fingerprint and equal unhashed components give equal files); the repaired design (sound fingerprint + presence test) is sound for all histories. Tied to /repo on every run by replaying all edit/deletion histories of length <=2 (quick) / <=3 (thorough) through the real CLI binary and through BuildSystem::generate_at_build_time in fresh processes and comparing every step with the extracted model, and by the hash-partition test on .typecache.",
     "design_ref": "DESIGN.md section 5 C08, C14, C17; section 11 cache_sound",
     "level_note": "The model's file contents are views (the data a file is rendered from), not TypeScript text: that equal views give equal text and different views different text is checked differentially per edit class, not proved; SipHash collision freedom is assumed (fingerprint equality = combined_hash equality, checked by the partition test); struct declaration order inside types.ts follows hash order and is compared modulo line order (property C13); types reachable only through event payloads are not tracked by the types.ts view; edits are one representative per class on one base project per mode.",
     "technique": "Rocq/Coq proof over hand-written model + correspondence check (extracted OCaml vs real binary and Rust driver)"
@@ -31,7 +31,7 @@ ASSUMPTIONS = ["equal combined_hash <=> equal fingerprint (SipHash-1-3 collision
                "a forced generation into an empty directory is the reference; differences in line order only are attributed to C13"]
 
 STATS = {}
-KF_BY_CLASS = {1: "C08-1", 2: "C08-2", 3: "C08-3", 4: "C08-4", 5: "C08-5", 6: "C08-6", 7: "C08-7", 8: "C08-8", 9: "C08-9"}
+KF_BY_CLASS = {6: "C08-6", 8: "C08-8", 9: "C08-9"}
 DELETES = ["delete:types.ts", "delete:commands.ts", "delete:events.ts", "delete:index.ts", "delete:.typecache"]
 # reduced alphabet for length-3 enumeration: one per class named in the property text + file loss
 CORE = ["cmd_add", "param_type", "ret_type", "field_add", "serde_rename", "serde_rename_all", "serde_skip", "enum_variant",
@@ -241,9 +241,9 @@ def history_cases(tier, rng):
 
 # every hashed configuration value on its own: library, a mapping's target, adding/removing a mapping,
 # parameter case, field case, include_private (+ visualize_deps, unhashed)
-CFG_EDITS = ["mode", "type_mapping", "map_target", "include_private", "param_case", "field_case", "visualize"]
-# plugins.typegen of tauri.conf.json carries no naming-case keys on the pinned tree (C19-5)
-TAURI_CFG_EDITS = [e for e in CFG_EDITS if e not in ("param_case", "field_case")]
+CFG_EDITS = ["mode", "type_mapping", "map_target", "map_add", "include_private", "param_case", "field_case", "visualize"]
+# since C19-5 plugins.typegen of tauri.conf.json carries the naming-case keys too
+TAURI_CFG_EDITS = list(CFG_EDITS)
 
 
 def cfg_edits(conf):
